@@ -386,6 +386,90 @@ Theorem C01_partition_linked : forall (cs : list C11.EndToEnd.card) rk,
 Proof. exact partition_linked. Qed.
 Print Assumptions C01_partition_linked.
 
+From T4V Require C05.Model C05.Spec C05.Proofs.
+From T4V Require Import C01.LinkC05.
+
+(* LINK C05 -> C01: decks with universes (no lattices).  The parsed deck s0 goes
+   through C05's model of the TRCL loop, the FILL loop and inline_cells; the
+   resulting table (generated cells = trees with CellRefs to filler cells, their
+   idorigin = the chain) is what C01 converts ([cells_of5], node-by-node [trF]).
+   C01's hypothesis cells_ok is DISCHARGED from C05_pipeline_located through
+   [Den_mden]: C05's value of a tree at p = C01's mden of its image, given
+   [surf_agree] (layer S: the T4 surfaces a MCNP surface became give it the same
+   sense at p) and a value for every cell at p.
+   Statement: key is a level-0 cell with a FILL, ks the cells generated for it, p a
+   point located along the descent ch of the deck as written (LocW), universes are
+   partitions, level-0 cells other than the container do not contain p.  Then one
+   generated cell k stands for ch (RepresentsW: no FILL left, idorigin = prov ch,
+   the leaf's material and density, the value of the descent everywhere), and p
+   lies in exactly one read-back non-FICTIVE volume, numbered k, when k is in the
+   conversion list, and in none otherwise.
+   Where it stops: "k is in the conversion list iff the container has importance
+   <> 0" is pot_fill's `new_cell = cell.copy()` (C05's model copies c_imp; no
+   exported theorem), and the printed `// idorigin` comment is tied, not proved
+   (the example below computes it on the pruned table). *)
+Theorem C01_partition_fill_linked :
+  forall (T surf P : Type) (tr_empty : T -> bool) (teqb : T -> T -> bool)
+         (tr_surf : T -> surf -> surf) (inv : T -> P -> P) (sense : surf -> P -> bool),
+  (forall t o p, sense (tr_surf t o) p = sense o (inv t p)) ->
+  (forall a b, teqb a b = true -> tr_empty a = tr_empty b /\ forall p, inv a p = inv b p) ->
+  forall fuel5 cf ifd ifg num den (s0 s1 s2 : C05.Model.state T surf) rs cells3,
+  C05.Proofs.fresh_ok T surf s0 -> C05.Model.s_cache s0 = [] ->
+  NoDup (map fst (C05.Model.s_cells s0)) -> C05.Proofs.all_ref_free T surf s0 ->
+  (forall c cl, C05.Model.dget c (C05.Model.s_cells s0) = Some cl -> C05.Model.c_orig cl = []) ->
+  C05.Model.trcl_phase T surf tr_empty teqb tr_surf fuel5 (map fst (C05.Model.s_cells s0)) s0
+    = C05.Model.Ok s1 ->
+  C05.Model.fill_phase T surf tr_empty teqb tr_surf fuel5 cf ifd ifg s1 = C05.Model.Ok (rs, s2) ->
+  C05.Model.inline_cells T fuel5 num den (C05.Model.s_cells s2) = C05.Model.Ok cells3 ->
+  let s3 := C05.Proofs.set_cells T surf s2 cells3 in
+  let du := C05.Model.by_universe (C05.Model.s_cells s0) in
+  forall (key : Z) (ks : list Z) (p : P) (ch : list Z)
+         sigma matching val u0 u1 fuel todo cnt0 s' rn skipped d',
+  In (key, ks) (combine (C05.Model.fill_keys (C05.Model.s_cells s0)) rs) ->
+  C05.Spec.LocW T surf P tr_empty inv sense s0 du key p ch true ->
+  C05.Spec.universe_partitionW T surf P tr_empty inv sense s0 du ->
+  (forall chs ch', C05.Spec.Paths T surf s0 du key chs -> In ch' chs ->
+     exists b', C05.Spec.LocW T surf P tr_empty inv sense s0 du key p ch' b') ->
+  (forall k o, C05.Model.dget k (C05.Model.s_surfs s3) = Some o ->
+     k <> 0 /\ exists ids, lookup k matching = Some ids /\ existsb (lit sigma) ids = sense o p) ->
+  (forall k ids, lookup k matching = Some ids -> Forall (fun x => x <> 0) ids) ->
+  (forall c cl, C05.Model.dget c (C05.Model.s_cells s3) = Some cl ->
+     C05.Spec.Den T surf P sense s3 p (C05.Model.c_geom cl) (val c)) ->
+  0 < u0 -> 0 < u1 -> consistent sigma u0 u1 ->
+  NoDup todo -> (forall k, In k todo -> k <= cnt0) ->
+  convert_cells fuel (cells_of5 (C05.Model.s_cells s3)) matching u0 u1 todo (mkSt cnt0 [] [] []) = Ok s' ->
+  prune u0 u1 rn (vols s') = Ok d' ->
+  (forall r, rn = Some r -> respects sigma r) ->
+  (forall k, In k skipped -> k <= cnt0 /\ ~ In k todo) ->
+  (forall k', In k' todo ->
+     (exists cl, C05.Model.dget k' (C05.Model.s_cells s0) = Some cl /\ C05.Model.c_univ cl = 0) \/
+     (exists key' ks', In (key', ks') (combine (C05.Model.fill_keys (C05.Model.s_cells s0)) rs) /\
+                       In k' ks')) ->
+  (forall c cl, C05.Model.dget c (C05.Model.s_cells s0) = Some cl -> C05.Model.c_univ cl = 0 ->
+     c <> key -> val c = false) ->
+  ~ In key todo ->
+  exists k, In k ks /\
+    C05.Spec.RepresentsW T surf P tr_empty inv sense s0 du s3 key k ch /\
+    exists Tb, read_table (print_table skipped d') = Some Tb /\
+               (In k todo -> forall j, in_volume sigma Tb j <-> j = k) /\
+               (~ In k todo -> forall j, ~ in_volume sigma Tb j).
+Proof. exact partition_fill_level0_linked. Qed.
+Print Assumptions C01_partition_fill_linked.
+
+(* non-vacuity: C05's example deck (two levels of universes) through TRCL / FILL /
+   inlining and then through C01's conversion, prune and printer: the plain level-0
+   cell 2 and the generated cells 27, 31, 34 are written under their numbers, and
+   volume 31 carries the provenance of the chain 1 -> 11 -> 20 *)
+Example C01_example_fill_linked :
+  exists cells3 surf_ids s' d',
+    ex5_table = Some (cells3, surf_ids) /\
+    convert_cells 40 (cells_of5 cells3) (map (fun k => (k, [k])) surf_ids) 100 101 [2; 27; 31; 34]
+                  (mkSt 50 [] [] []) = Ok s' /\
+    prune 100 101 None (vols s') = Ok d' /\
+    map fst (filter (fun kv => negb (v_fict (snd kv))) (written [] d')) = [2; 27; 31; 34] /\
+    option_map v_orig (lookup 31 d') = Some (C05.Spec.prov [1; 11; 20]).
+Proof. exact ex5_runs. Qed.
+
 (* non-vacuity of the link: the table C11_example_deck computes for the deck
    "1 0 -1 2 imp:n=1" / "2 3 -2.7 #1:3" meets the side conditions, converts and
    prunes; both cells are written *)
